@@ -133,6 +133,12 @@ class Box:
         return 7
 
 
+def appended(obj, name, item):
+    """obj after an in-place change of a list-valued field that was left to its default factory"""
+    getattr(obj, name).append(item)
+    return obj
+
+
 LOG = []
 
 
